@@ -28,13 +28,15 @@ ASSUMPTIONS = [
     "whether an empty (or, fixed-width, blank-only) cell is accepted is C03's business: that verdict is taken from the real "
     "field on a private Cid with recording off; the model only predicts which calls follow from it",
     "a run that is stopped early is closed right away; closing it twice must add no calls",
+    "the plug-in folder scenario writes three module files to a scratch directory under /dev/shm (import_plugins needs "
+    "the real import system); the directory is removed when the check ends",
 ]
 COMPONENTS = {
     "real": ["cutplace.validio Reader/Writer/rows/validate", "cutplace.interface.Cid (class resolution)",
              "cutplace.fields.AbstractFieldFormat.validated and guards", "cutplace.checks.IsUniqueCheck", "cutplace.rowio"],
     "stub": ["recording plug-in classes (third-party code)", "SimFS/SimRaw", "stepping client"],
 }
-PROBES_REQUIRED = ["other-cid-used-before-in-same-process", "veto-by-first-of-several-checks", "first-cell-rejected", "blank-only-fixed-cell", "run-stopped-early",
+PROBES_REQUIRED = ["plug-in-folder-imported", "other-cid-used-before-in-same-process", "veto-by-first-of-several-checks", "first-cell-rejected", "blank-only-fixed-cell", "run-stopped-early",
                    "second-run-on-same-cid", "writer-run", "close-twice", "hook-rejection", "guard-rejection:chars",
                    "guard-rejection:length", "end-check-fails", "row-beyond-limit", "header-row", "wrong-item-count",
                    "builtin-isunique-between-recording-checks"]
@@ -97,11 +99,21 @@ def generate(seed, tier):
                          "close_twice": rng.random() < 0.3})
         else:
             runs.append({"kind": "write", "data": data, "close_twice": rng.random() < 0.3})
+    plugin_folder = swarm.random() < 0.3
+    if plugin_folder:
+        # some of the classes come from a plug-in folder imported while the process is already running
+        for field in fields:
+            if swarm.random() < 0.6:
+                field["type"] = swarm.choice(["FolderA", "FolderB"])
+        for check in checks:
+            if check[1] != "IsUnique" and swarm.random() < 0.6:
+                check[1] = "FolderX"
     prelude = None
     if swarm.random() < 0.3:
         # another Cid with the same structure but a wider allowed-characters range is used in the same process first
         prelude = {"allowed": swarm.choice([None, [32, 255]]), "data": rng.choice(sorted(tables))}
-    return {"io": simfs.IoConfig.draw(swarm), "cid": spec, "tables": tables, "runs": runs, "prelude": prelude}
+    return {"io": simfs.IoConfig.draw(swarm), "cid": spec, "tables": tables, "runs": runs, "prelude": prelude,
+            "plugin_folder": plugin_folder}
 
 
 # ---- reference model of the protocol ------------------------------------------------------------
@@ -184,6 +196,53 @@ class RefProtocol(object):
         return [["reset", description] for description, kind, _ in self.checks if kind != "IsUnique"]
 
 
+PLUGIN_MODULES = {
+    "plug_alpha.py": """from cutplace import fields
+from sim import plugins
+
+
+class FolderAFieldFormat(plugins._RecordingFieldFormat, fields.AbstractFieldFormat):
+    def __init__(self, field_name, is_allowed_to_be_empty, length, rule, data_format):
+        super().__init__(field_name, is_allowed_to_be_empty, length, rule, data_format, empty_value="")
+""",
+    "plug_beta.py": """from cutplace import fields
+from sim import plugins
+
+
+class FolderBFieldFormat(plugins._RecordingFieldFormat, fields.AbstractFieldFormat):
+    def __init__(self, field_name, is_allowed_to_be_empty, length, rule, data_format):
+        super().__init__(field_name, is_allowed_to_be_empty, length, rule, data_format, empty_value="")
+""",
+    "plug_gamma.py": """from cutplace import checks
+from sim import plugins
+
+
+class FolderXCheck(plugins._RecordingCheck, checks.AbstractCheck):
+    def __init__(self, description, rule, available_field_names, location=None):
+        super().__init__(description, rule, available_field_names, location)
+        self._configure()
+""",
+}
+
+
+def _import_plugin_folder(probes):
+    """Write the plug-in modules to a scratch folder (real disk: import_plugins uses glob and the import system)
+    and import them through cutplace - after a Cid has already been created in this process."""
+    import os
+
+    from cutplace import interface
+
+    interface.Cid()  # a Cid created before the folder is imported must not freeze the set of known classes
+    folder = os.path.join(os.environ.get("VERIF_SCRATCH", "/dev/shm/verif-scratch-x"), "plugins-%d" % os.getpid())
+    if not os.path.isdir(folder):
+        os.makedirs(folder)
+        for name, source in sorted(PLUGIN_MODULES.items()):
+            with open(os.path.join(folder, name), "w", encoding="utf-8") as stream:
+                stream.write(source)
+    interface.import_plugins(folder)
+    probes.append("plug-in-folder-imported")
+
+
 def _normalise(events):
     """Order inside a block of consecutive reset (or cleanup) events is not prescribed."""
     result = []
@@ -219,7 +278,13 @@ def execute(scenario):
         fs.store(name + ".txt", data.encode("utf-8"))
 
     plugins.set_log(None)
-    oracle_cid = lib.load_cid(cid_rows(spec), "oracle-cid")
+    if scenario.get("plugin_folder"):
+        _import_plugin_folder(probes)
+    status, oracle_cid = lib.call(lib.load_cid, cid_rows(spec), "oracle-cid")
+    if status == "exc":
+        types = sorted({field["type"] for field in spec["fields"]} | {check[1] for check in spec["checks"]})
+        raise core.Violation("plug-in-class-not-resolved", [name for name in types if name.startswith("Folder")] or types,
+                             "CID %r: %r" % (cid_rows(spec), lib.error_summary(oracle_cid)))
 
     def empty_verdict(index, cell):
         from cutplace import errors
@@ -376,6 +441,16 @@ def candidates(scenario):
         yield candidate
     if scenario.get("prelude"):
         yield lib.with_value(scenario, ["prelude"], None)
+    if scenario.get("plugin_folder"):
+        candidate = copy.deepcopy(scenario)
+        candidate["plugin_folder"] = False
+        for field in candidate["cid"]["fields"]:
+            if field["type"].startswith("Folder"):
+                field["type"] = "RecA"
+        for check in candidate["cid"]["checks"]:
+            if check[1] == "FolderX":
+                check[1] = "RecX"
+        yield candidate
     for name in sorted(scenario["tables"]):
         for candidate in lib.drop_candidates(scenario, ["tables", name]):
             yield candidate
